@@ -481,7 +481,20 @@ def _rsa_fault_episode(r, n):
   the middle of a batch (some artifacts already annotated), or a resource
   open that fails / is torn inside a check constructor."""
   ops = []
-  if r.random() < 0.6:
+  u = r.random()
+  if u < 0.2:
+    # the Storage extension point fails while a check object is constructed
+    which = r.choice(["keypair", "deny"])
+    spec = {"name": "CheckKeypairDenylist" if which == "keypair"
+            else "CheckOpensslDenylist", "how": "construct",
+            "params": {"storage": {"ctor_fail": which}}, "slot": 11,
+            "default_equiv": True}
+    batch = sub_batch(r, n, 1, 4)
+    ops.append({"op": "seam_fault", "kind": "storage_raise", "k": 0})
+    ops.append({"op": "check", "check": spec, "batch": batch, "oracle": []})
+    ops.append({"op": "heal"})
+    ops.append({"op": "check", "check": spec, "batch": batch, "oracle": []})
+  elif u < 0.6:
     spec = {"name": "CheckUnseededRand", "how": "construct",
             "params": {"storage": {"raise_at": r.randint(1, 3)}},
             "slot": 7}
